@@ -138,8 +138,7 @@ Proof.
       * eapply oe_qp; [exact Q0 | apply pcu_finish | exact Hw].
     + destruct (closed s); inversion H; subst.
       * eapply oe_qp; [exact Q0 | apply pcu_finish | exact Hw].
-      * eapply oe_qp with (s1 := set_table s0 (next_sid s + 1)%N (table s ++ [(next_sid s, t)]));
-          [eapply quiet_trans; [exact Q0 | qrl] | apply pcu_set_task | exact Hw].
+      * eapply oe_qp; [exact Q0 | apply pcu_set_task | exact Hw].
     + destruct (t_sid (with_prog (tasks s t) rest)); [destruct (t_verdict (with_prog (tasks s t) rest))|];
         inversion H; subst; (eapply oe_qp; [exact Q0 | apply pcu_finish | exact Hw]).
     + destruct (t_sid (with_prog (tasks s t) rest)); [destruct (t_verdict (with_prog (tasks s t) rest))|];
@@ -193,6 +192,8 @@ Proof.
     + apply oe_same. unfold pcof. cbn. rewrite upd_other by exact Hw. reflexivity.
     + eapply oe_qp with (s1 := set_shut s); [qrl | apply pcu_finish_close | exact Hw].
   - discriminate.
+  - inversion H; subst.
+    eapply oe_qp with (s1 := set_table s (next_sid s + 1)%N (table s ++ [(next_sid s, t)])); [qrl | apply pcu_set_task | exact Hw].
   - inversion H; subst. eapply oe_of_pcu; [apply pcu_set_task | exact Hw].
 Qed.
 
@@ -261,6 +262,7 @@ Proof.
     + exfalso. pose proof (inv_free s HI Ewr) as Hn.
       assert (In t (waiters s)) as Hi by (apply (inv_wait s HI); unfold pcof; rewrite Epc; reflexivity).
       rewrite Hn in Hi. exact Hi.
+  - en_tac Epc. discriminate.
   - en_tac Epc. discriminate.
 Qed.
 
@@ -418,6 +420,7 @@ Proof.
     rewrite closed_finish_close in C'. cbn in C'. congruence.
   - discriminate.
   - inversion H; subst. cbn in C'. congruence.
+  - inversion H; subst. cbn in C'. congruence.
 Qed.
 
 Lemma step_self_in_close s t s' :
@@ -452,43 +455,66 @@ Qed.
 Lemma shut_ok_init progs buf pend : shut_ok (init progs buf pend).
 Proof. intros C. discriminate. Qed.
 
-Lemma table_feed_nil s ev : table s = [] -> table (feed_ev s ev) = [].
+Lemma table_enter_close s w a k : table (enter_close s w a k) = table s.
+Proof. unfold enter_close. destruct (closed s); [apply table_finish_close | reflexivity]. Qed.
+
+(* ---- what a step can do to the stream table ---- *)
+Lemma table_feed s ev :
+  table (feed_ev s ev) = table s \/ exists o, table (feed_ev s ev) = remove_owner (table s) o.
 Proof.
-  intros E. unfold feed_ev. destruct (negb (ralive s)); [exact E|].
-  destruct ev; rewrite ?E; cbn [lookup_owner]; try exact E;
-    destruct (pc_is_idle (t_pc (tasks s rtid))); try exact E;
-    unfold enter_close; try (destruct (closed s); [rewrite table_finish_close; exact E | exact E]).
+  unfold feed_ev. destruct (negb (ralive s)); [left; reflexivity|].
+  destruct ev;
+    repeat match goal with
+           | |- context [match ?x with _ => _ end] => destruct x eqn:?
+           end;
+    try (left; reflexivity); try (right; eexists; reflexivity); left; apply table_enter_close.
 Qed.
 
-Lemma step_table_nil s t s' :
-  step s t = Some s' -> closed s = true -> table s = [] -> table s' = [].
+Definition table_effect (s s' : state) (t : tid) : Prop :=
+  table s' = table s \/ table s' = [] \/ (exists o, table s' = remove_owner (table s) o)
+  \/ (pcof s t = PO0 /\ table s' = table s ++ [(next_sid s, t)]).
+
+Lemma step_table s t s' : step s t = Some s' -> table_effect s s' t.
 Proof.
-  intros H C E. unfold step in H.
+  intros H. unfold step in H. unfold table_effect.
   destruct (t_pc (tasks s t)) eqn:Epc.
   - destruct (t_prog (tasks s t)) as [|c rest]; [discriminate|].
     unfold start_call in H. set (s0 := set_task s t (with_prog (tasks s t) rest)) in *.
-    rewrite C in H.
     destruct c;
       repeat match type of H with
              | context [match ?x with _ => _ end] => destruct x eqn:?
-             end; inversion H; subst; try exact E.
-    + unfold enter_close. change (closed s0) with (closed s). rewrite C. rewrite table_finish_close. exact E.
-    + change (table (feed_ev s0 ev) = []). apply table_feed_nil. exact E.
-  - rewrite C in H. inversion H; subst. rewrite table_finish_w. exact E.
-  - inversion H; subst. rewrite table_finish_w. exact E.
-  - destruct (wr s); inversion H; subst; exact E.
+             end; inversion H; subst; try (left; reflexivity).
+    + left. apply (table_enter_close s0).
+    + destruct (table_feed s0 ev) as [A|[o A]]; [left; exact A | right; right; left; exists o; exact A].
+  - destruct (closed s); [|destruct (buffering s)]; inversion H; subst; left; [apply table_finish_w | reflexivity | reflexivity].
+  - inversion H; subst. left. rewrite table_finish_w. reflexivity.
+  - destruct (wr s); inversion H; subst; left; reflexivity.
   - discriminate.
-  - inversion H; subst. exact E.
-  - destruct (failing s || shut s); inversion H; subst.
+  - inversion H; subst. left. reflexivity.
+  - destruct (failing s || shut s); inversion H; subst; left.
     + set (s1 := set_wire s (pkt s + 1)%N (wire s)) in *.
-      change (table (release s1) = []). unfold release. destruct (release_ws_closed (waiters s1) s1) as [_ B]. rewrite B. exact E.
+      change (table (release s1) = table s). unfold release. destruct (release_ws_closed (waiters s1) s1) as [_ B]. rewrite B. reflexivity.
     + set (s1 := set_wire s (pkt s + 1)%N (wire s ++ [((pkt s + 1)%N, held)])) in *.
-      rewrite table_finish_w. unfold release. destruct (release_ws_closed (waiters s1) s1) as [_ B]. rewrite B. exact E.
-  - inversion H; subst. unfold enter_close. rewrite C, table_finish_close. exact E.
-  - inversion H; subst. reflexivity.
-  - destruct (wr s); inversion H; subst; [exact E|]. rewrite table_finish_close. exact E.
+      rewrite table_finish_w. unfold release. destruct (release_ws_closed (waiters s1) s1) as [_ B]. rewrite B. reflexivity.
+  - inversion H; subst. left. apply table_enter_close.
+  - inversion H; subst. right; left. reflexivity.
+  - destruct (wr s); inversion H; subst; left; [reflexivity|]. rewrite table_finish_close. reflexivity.
   - discriminate.
-  - inversion H; subst. exact E.
+  - inversion H; subst. right; right; right. split; [unfold pcof; exact Epc | reflexivity].
+  - inversion H; subst. left. reflexivity.
+Qed.
+
+Lemma in_remove_owner_inv tb e o : In e (remove_owner tb o) -> In e tb.
+Proof. unfold remove_owner. intros H. apply filter_In in H. exact (proj1 H). Qed.
+
+Lemma step_table_in s t s' e :
+  step s t = Some s' -> In e (table s') -> In e (table s) \/ (pcof s t = PO0 /\ e = (next_sid s, t)).
+Proof.
+  intros H Hin. destruct (step_table s t s' H) as [A|[A|[[o A]|[P A]]]]; rewrite A in Hin.
+  - left. exact Hin.
+  - destruct Hin.
+  - left. eapply in_remove_owner_inv. exact Hin.
+  - apply in_app_or in Hin. destruct Hin as [Hin|[<-|[]]]; [left; exact Hin | right; split; [exact P | reflexivity]].
 Qed.
 
 Definition is_pc1 (p : pc) : bool := match p with PC1 _ _ => true | _ => false end.
@@ -530,10 +556,8 @@ Proof.
     rewrite closed_finish_close in C'. cbn in C'. congruence.
   - discriminate.
   - inversion H; subst. cbn in C'. congruence.
+  - inversion H; subst. cbn in C'. congruence.
 Qed.
-
-Definition drained_ok (s : state) : Prop :=
-  closed s = true -> table s = [] \/ exists x, is_pc1 (pcof s x) = true.
 
 Lemma closed_mono s t s' : step s t = Some s' -> closed s = true -> closed s' = true.
 Proof.
@@ -569,44 +593,7 @@ Proof.
     rewrite closed_finish_close in C'. cbn in C'. congruence.
   - discriminate.
   - inversion H; subst. cbn in C'. congruence.
-Qed.
-
-Theorem step_drained_ok s t s' : Inv s -> drained_ok s -> step s t = Some s' -> drained_ok s'.
-Proof.
-  intros HI D H C'. destruct (closed s) eqn:C.
-  - destruct (D C) as [E|[x Hx]].
-    + left. eapply step_table_nil; eauto.
-    + destruct (Nat.eq_dec x t) as [->|Hne].
-      * left. unfold pcof in Hx. destruct (t_pc (tasks s t)) eqn:Epc; try discriminate.
-        eapply (proj1 (close_drain_step s t a k s' ltac:(unfold pcof; exact Epc) H)).
-      * destruct (step_others s t s' HI H x Hne) as [[E|[(k & f & A & _)|(a & k & A & _)]]|(_ & A & _)].
-        -- right. exists x. rewrite E. exact Hx.
-        -- rewrite A in Hx. discriminate.
-        -- rewrite A in Hx. discriminate.
-        -- rewrite A in Hx. discriminate.
-  - destruct (step_closed_by_pc1 s t s' H C C') as [A|[_ A]]; right; eauto.
-Qed.
-
-Lemma drained_ok_init progs buf pend : drained_ok (init progs buf pend).
-Proof. intros C. discriminate. Qed.
-
-(* ---- assembled: the end state of a dead session ---- *)
-Definition quiescent_close (s : state) : Prop := forall x, in_close (pcof s x) = false.
-
-Theorem dead_session_released sched progs buf pend :
-  let s := run (init progs buf pend) sched in
-  closed s = true -> quiescent_close s -> shut s = true /\ table s = [].
-Proof.
-  intros s C Q.
-  assert (Inv s /\ shut_ok s /\ drained_ok s) as (HI & S & D).
-  { unfold s. clear s C Q.
-    apply (run_invariant (fun s => Inv s /\ shut_ok s /\ drained_ok s)).
-    - intros s t s' HI (_ & S & D) H. split; [eapply step_inv; eauto | split; [eapply step_shut_ok; eauto | eapply step_drained_ok; eauto]].
-    - apply inv_init.
-    - split; [apply inv_init | split; [apply shut_ok_init | apply drained_ok_init]]. }
-  split.
-  - destruct (S C) as [A|[x A]]; [exact A | rewrite Q in A; discriminate].
-  - destruct (D C) as [A|[x A]]; [exact A|]. specialize (Q x). destruct (pcof s x); discriminate.
+  - inversion H; subst. cbn in C'. congruence.
 Qed.
 
 (* ---- every reader is released: a stream handle is either still registered or its queue is closed ---- *)
@@ -665,9 +652,6 @@ Lemma ks_set_task s t v u : keeps_stream (tasks s t) v -> keeps_stream (tasks s 
 Proof.
   intros H. destruct (Nat.eq_dec u t) as [->|Hne]; cbn; [rewrite upd_same; exact H | rewrite upd_other by exact Hne; apply ks_refl].
 Qed.
-
-Lemma table_enter_close s w a k : table (enter_close s w a k) = table s.
-Proof. unfold enter_close. destruct (closed s); [apply table_finish_close | reflexivity]. Qed.
 
 Lemma reader_ok_keep s s' :
   reader_ok s -> table s' = table s -> (forall u, keeps_stream (tasks s u) (tasks s' u)) -> reader_ok s'.
@@ -734,13 +718,6 @@ Proof.
              | context [match ?y with _ => _ end] => destruct y eqn:?
              end; inversion H; subst s'; clear H;
       try (eapply reader_ok_keep; [exact R0 | reflexivity | intros u; first [apply ks_finish | apply KS; split; auto]]; fail).
-    + (* COpen registers the stream *)
-      intros u sid H. cbn [table set_task set_tasks set_table]. cbn [tasks set_task set_tasks set_table] in H.
-      destruct (Nat.eq_dec u t) as [->|Hne].
-      * rewrite upd_same in H. cbn in H. inversion H; subst. left. apply in_or_app. right. left. reflexivity.
-      * rewrite upd_other in H by exact Hne. cbn [tasks set_table] in H.
-        destruct (R0 u sid H) as [A|A]; [left; apply in_or_app; left; exact A | right].
-        cbn. rewrite upd_other by exact Hne. exact A.
     + (* CTimeout on a pending verdict *)
       eapply reader_ok_keep; [exact R0 | reflexivity|]. intros u.
       eapply ks_trans; [apply KS with (v := with_verdict x (Some ResTimeout)); split; auto | apply ks_finish].
@@ -775,23 +752,235 @@ Proof.
     + eapply reader_ok_keep; [exact R | reflexivity | intros u; apply (ks_set_pc (set_lock s _ _))].
     + eapply reader_ok_keep; [exact R | rewrite table_finish_close; reflexivity | intros u; apply (ks_finish_close (set_shut s))].
   - discriminate.
+  - (* PO0 registers the stream *)
+    inversion H; subst. clear H.
+    intros u sid H. cbn [table set_task set_tasks set_table]. cbn [tasks set_task set_tasks set_table] in H.
+    destruct (Nat.eq_dec u t) as [->|Hne].
+    + rewrite upd_same in H. cbn in H. inversion H; subst. left. apply in_or_app. right. left. reflexivity.
+    + rewrite upd_other in H by exact Hne.
+      destruct (R u sid H) as [A|A]; [left; apply in_or_app; left; exact A | right].
+      cbn. rewrite upd_other by exact Hne. exact A.
   - inversion H; subst. eapply reader_ok_keep; [exact R | reflexivity | intros u; apply ks_set_task; split; auto].
 Qed.
 
 Lemma reader_ok_init progs buf pend : reader_ok (init progs buf pend).
 Proof. intros u sid H. cbn in H. discriminate. Qed.
 
-(* assembled: in a dead session every task that holds a stream has its queue closed: its reads return the
-   data already queued and then end-of-stream, they never park *)
+(* ---- what a step does to the stream handle of any task ---- *)
+Lemma ks_feed s ev u : keeps_stream (tasks s u) (tasks (feed_ev s ev) u).
+Proof.
+  unfold feed_ev. destruct (negb (ralive s)); [apply ks_refl|].
+  destruct ev;
+    repeat match goal with
+           | |- context [match ?x with _ => _ end] => destruct x eqn:?
+           end;
+    try apply ks_refl; try apply ks_enter_close; try apply ks_set_pc;
+    try (apply ks_set_task; split; auto; fail).
+Qed.
+
+Lemma step_keeps s t s' u :
+  step s t = Some s' -> (u = t -> pcof s t <> PO0) -> keeps_stream (tasks s u) (tasks s' u).
+Proof.
+  intros H NP. unfold step in H.
+  destruct (t_pc (tasks s t)) eqn:Epc.
+  - destruct (t_prog (tasks s t)) as [|c rest]; [discriminate|].
+    unfold start_call in H. set (x := with_prog (tasks s t) rest) in *. set (s0 := set_task s t x) in *.
+    assert (keeps_stream (tasks s u) (tasks s0 u)) as K0 by (apply ks_set_task; split; auto).
+    assert (forall v, keeps_stream x v -> keeps_stream (tasks s0 u) (tasks (set_task s0 t v) u)) as KS.
+    { intros v Hv. apply ks_set_task. unfold s0. cbn. rewrite upd_same. exact Hv. }
+    destruct c;
+      repeat match type of H with
+             | context [match ?y with _ => _ end] => destruct y eqn:?
+             end; inversion H; subst s'; clear H; (eapply ks_trans; [exact K0|]);
+      try (first [apply ks_finish | apply KS; split; auto]; fail).
+    + eapply ks_trans; [apply KS with (v := with_verdict x (Some ResTimeout)); split; auto | apply ks_finish].
+    + eapply ks_trans; [apply KS with (v := with_rq x n0 (t_rclosed x)); split; auto | apply ks_finish].
+    + apply ks_enter_close.
+    + apply (ks_finish (set_buffering s0 false)).
+    + apply (ks_finish (set_buffering s0 true)).
+    + apply (ks_finish (set_failing s0)).
+    + eapply ks_trans; [apply ks_feed | apply ks_finish].
+  - destruct (closed s); [|destruct (buffering s)]; inversion H; subst;
+      [apply ks_finish_w | apply ks_set_pc | apply ks_set_pc].
+  - inversion H; subst. apply (ks_finish_w (set_queue s (pending s ++ [(t, f)]) (lin s ++ [(t, f)]))).
+  - destruct (wr s); inversion H; subst; apply (ks_set_pc (set_lock s _ _)).
+  - discriminate.
+  - inversion H; subst. apply (ks_set_pc (set_queue s _ _)).
+  - destruct (failing s || shut s); inversion H; subst.
+    + set (s1 := set_wire s (pkt s + 1)%N (wire s)).
+      eapply ks_trans; [apply (ks_release_ws (waiters s1) s1 u) | apply ks_set_pc].
+    + set (s1 := set_wire s (pkt s + 1)%N (wire s ++ [((pkt s + 1)%N, held)])).
+      eapply ks_trans; [apply (ks_release_ws (waiters s1) s1 u) | apply ks_finish_w].
+  - inversion H; subst. apply ks_enter_close.
+  - inversion H; subst.
+    eapply ks_trans; [|apply (ks_set_pc (set_table (set_tasks s (drain (table s) (tasks s))) (next_sid s) []) t (PC2 a k) u)].
+    change (keeps_stream (tasks s u) (drain (table s) (tasks s) u)).
+    destruct (drain_keeps (table s) (tasks s) u) as (A & _ & B & _). split; [left; exact B | exact A].
+  - destruct (wr s); inversion H; subst; [apply (ks_set_pc (set_lock s _ _)) | apply (ks_finish_close (set_shut s))].
+  - discriminate.
+  - inversion H; subst. destruct (Nat.eq_dec u t) as [->|Hne].
+    + exfalso. apply NP; [reflexivity | unfold pcof; exact Epc].
+    + cbn. rewrite upd_other by exact Hne. apply ks_refl.
+  - inversion H; subst. apply ks_set_task. split; auto.
+Qed.
+
+(* ---- the pc of the stepping task: PO0 is only ever entered from PIdle on an open session ---- *)
+Lemma pcof_enter_close_same s t a k : pcof (enter_close s t a k) t = PIdle \/ pcof (enter_close s t a k) t = PC1 a k.
+Proof.
+  unfold enter_close. destruct (closed s); [left; apply pcof_finish_close_same | right].
+  unfold pcof. cbn. rewrite upd_same. reflexivity.
+Qed.
+
+Lemma step_self_not_po0 s t s' : step s t = Some s' -> closed s = true -> pcof s' t <> PO0.
+Proof.
+  intros H C. unfold step in H.
+  destruct (t_pc (tasks s t)) eqn:Epc.
+  - destruct (t_prog (tasks s t)) as [|c rest]; [discriminate|].
+    unfold start_call in H. set (x := with_prog (tasks s t) rest) in *. set (s0 := set_task s t x) in *.
+    rewrite C in H.
+    destruct c;
+      repeat match type of H with
+             | context [match ?y with _ => _ end] => destruct y eqn:?
+             end; inversion H; subst s'; clear H;
+      try (unfold pcof; cbn; rewrite ?upd_same; cbn; discriminate).
+    + destruct (pcof_enter_close_same s0 t AfterClose WkPlain) as [E|E]; rewrite E; discriminate.
+  - rewrite C in H. inversion H; subst. destruct (pcu_finish_w s t k ResClosed) as (_ & _ & E & _). rewrite E. discriminate.
+  - inversion H; subst.
+    destruct (pcu_finish_w (set_queue s (pending s ++ [(t, f)]) (lin s ++ [(t, f)])) t k ResOk) as (_ & _ & E & _).
+    rewrite E. discriminate.
+  - destruct (wr s); inversion H; subst; unfold pcof; cbn; rewrite upd_same; discriminate.
+  - discriminate.
+  - inversion H; subst. unfold pcof; cbn; rewrite upd_same; discriminate.
+  - destruct (failing s || shut s); inversion H; subst.
+    + unfold pcof; cbn; rewrite upd_same; discriminate.
+    + match goal with |- pcof (finish_w ?a t k ResOk) t <> _ => destruct (pcu_finish_w a t k ResOk) as (_ & _ & E & _) end.
+      rewrite E. discriminate.
+  - inversion H; subst. destruct (pcof_enter_close_same s t a k) as [E|E]; rewrite E; discriminate.
+  - inversion H; subst. unfold pcof; cbn; rewrite upd_same; discriminate.
+  - destruct (wr s); inversion H; subst; [unfold pcof; cbn; rewrite upd_same; discriminate|].
+    rewrite pcof_finish_close_same. discriminate.
+  - discriminate.
+  - inversion H; subst. unfold pcof; cbn; rewrite upd_same; discriminate.
+  - inversion H; subst. unfold pcof; cbn; rewrite upd_same; discriminate.
+Qed.
+
+(* ---- the window of open_stream: the closed flag is examined BEFORE the id is allocated and the stream
+   registered (no lock spans the two), so a stream can be registered after close() has drained the tables.
+   Such an entry is never handed to a caller: its owner is still inside open_stream, the SYN it is about to
+   submit fails on the closed flag, and open_stream returns the error (the handle is dropped). ---- *)
+Definition in_window (p : pc) (sid : N) : Prop := p = PO1 sid \/ p = PW0 WkOpen (syn_frame sid).
+Definition late_entry (s : state) (sid : N) (u : tid) : Prop :=
+  in_window (pcof s u) sid \/ (t_sid (tasks s u) = None /\ pcof s u <> PO0).
+
+Definition drained_ok (s : state) : Prop :=
+  closed s = true ->
+  (exists x, is_pc1 (pcof s x) = true) \/ forall sid u, In (sid, u) (table s) -> late_entry s sid u.
+
+Lemma step_self_late s t s' sid :
+  step s t = Some s' -> closed s = true -> late_entry s sid t -> late_entry s' sid t.
+Proof.
+  intros H C [[W|W]|[Sn Np]].
+  - (* PO1: the SYN is submitted *)
+    left. right. unfold step in H. unfold pcof in W. rewrite W in H. inversion H; subst.
+    unfold pcof. cbn. rewrite upd_same. reflexivity.
+  - (* PW0 of the SYN: the closed flag is seen, open_stream returns the error and drops the handle *)
+    right. unfold step in H. unfold pcof in W. rewrite W, C in H. inversion H; subst.
+    unfold pcof. cbn. rewrite upd_same. cbn. split; [reflexivity | discriminate].
+  - right. split; [|eapply step_self_not_po0; eauto].
+    destruct (step_keeps s t s' t H (fun _ => Np)) as [[E|E] _]; [rewrite E; exact Sn | exact E].
+Qed.
+
+Lemma step_other_late s t s' sid u :
+  Inv s -> step s t = Some s' -> u <> t -> late_entry s sid u -> late_entry s' sid u.
+Proof.
+  intros HI H Hne L.
+  pose proof (step_others s t s' HI H u Hne) as O.
+  destruct L as [W|[Sn Np]].
+  - left. assert (pcof s' u = pcof s u) as E; [|rewrite E; exact W].
+    destruct O as [[E|[(k & f & A & _)|(a & k & A & _)]]|(_ & A & _)]; [exact E | | |];
+      destruct W as [W|W]; rewrite W in A; discriminate.
+  - right. split.
+    + destruct (step_keeps s t s' u H (fun E => False_ind _ (Hne E))) as [[E|E] _]; [rewrite E; exact Sn | exact E].
+    + intros P. destruct O as [[E|[(k & f & _ & B)|(a & k & _ & B & _)]]|(_ & _ & [B|B])];
+        try (rewrite B in P; discriminate).
+      apply Np. rewrite <- E. exact P.
+Qed.
+
+Theorem step_drained_ok s t s' : Inv s -> drained_ok s -> step s t = Some s' -> drained_ok s'.
+Proof.
+  intros HI D H C'. destruct (closed s) eqn:C.
+  - destruct (D C) as [[x Hx]|R].
+    + destruct (Nat.eq_dec x t) as [->|Hne].
+      * right. unfold pcof in Hx. destruct (t_pc (tasks s t)) eqn:Epc; try discriminate.
+        destruct (close_drain_step s t a k s' ltac:(unfold pcof; exact Epc) H) as [E _].
+        rewrite E. intros sid u [].
+      * left. destruct (step_others s t s' HI H x Hne) as [[E|[(k & f & A & _)|(a & k & A & _)]]|(_ & A & _)].
+        -- exists x. rewrite E. exact Hx.
+        -- rewrite A in Hx. discriminate.
+        -- rewrite A in Hx. discriminate.
+        -- rewrite A in Hx. discriminate.
+    + right. intros sid u Hin.
+      destruct (step_table_in s t s' (sid, u) H Hin) as [Hold|[P E]].
+      * specialize (R sid u Hold). destruct (Nat.eq_dec u t) as [->|Hne].
+        -- eapply step_self_late; eauto.
+        -- eapply step_other_late; eauto.
+      * inversion E; subst. left. left.
+        unfold step in H. unfold pcof in P. rewrite P in H. inversion H; subst.
+        unfold pcof. cbn. rewrite upd_same. reflexivity.
+  - destruct (step_closed_by_pc1 s t s' H C C') as [A|[_ A]]; left; eauto.
+Qed.
+
+Lemma drained_ok_init progs buf pend : drained_ok (init progs buf pend).
+Proof. intros C. discriminate. Qed.
+
+(* ---- assembled: the end state of a dead session ---- *)
+Definition quiescent_close (s : state) : Prop := forall x, in_close (pcof s x) = false.
+
+Theorem dead_session_released sched progs buf pend :
+  let s := run (init progs buf pend) sched in
+  closed s = true -> quiescent_close s ->
+  shut s = true /\ forall sid u, In (sid, u) (table s) -> late_entry s sid u.
+Proof.
+  intros s C Q.
+  assert (Inv s /\ shut_ok s /\ drained_ok s) as (HI & S & D).
+  { unfold s. clear s C Q.
+    apply (run_invariant (fun s => Inv s /\ shut_ok s /\ drained_ok s)).
+    - intros s t s' HI (_ & S & D) H. split; [eapply step_inv; eauto | split; [eapply step_shut_ok; eauto | eapply step_drained_ok; eauto]].
+    - apply inv_init.
+    - split; [apply inv_init | split; [apply shut_ok_init | apply drained_ok_init]]. }
+  split.
+  - destruct (S C) as [A|[x A]]; [exact A | rewrite Q in A; discriminate].
+  - destruct (D C) as [[x A]|A]; [|exact A]. specialize (Q x). destruct (pcof s x); discriminate.
+Qed.
+
+(* assembled: in a dead session every task that holds a stream handle has that stream's queue closed: its
+   reads return the data already queued and then end-of-stream, they never park. The only streams exempt are
+   those whose open_stream call is still in its window (registered after the drain, SYN not yet attempted):
+   no caller has their handle yet, and it never gets it (window_open_fails). *)
 Theorem dead_session_readers sched progs buf pend :
   let s := run (init progs buf pend) sched in
   closed s = true -> quiescent_close s ->
-  forall u sid, t_sid (tasks s u) = Some sid -> t_rclosed (tasks s u) = true.
+  forall u sid, t_sid (tasks s u) = Some sid -> t_rclosed (tasks s u) = true \/ in_window (pcof s u) sid.
 Proof.
   intros s C Q u sid H.
   assert (reader_ok s) as R.
   { unfold s. apply (run_invariant reader_ok); [| apply inv_init | apply reader_ok_init].
     intros s1 t s2 _ R1 H1. eapply step_reader_ok; eauto. }
   destruct (dead_session_released sched progs buf pend C Q) as [_ T]. fold s in T.
-  destruct (R u sid H) as [A|A]; [rewrite T in A; destruct A | exact A].
+  destruct (R u sid H) as [A|A]; [|left; exact A].
+  destruct (T sid u A) as [W|[Sn _]]; [right; exact W | congruence].
+Qed.
+
+(* the open_stream call that registered its stream in the window fails: two steps later it has returned
+   SessionClosed, nothing was written, and the task holds no handle *)
+Theorem window_open_fails s t sid :
+  closed s = true -> pcof s t = PO1 sid ->
+  exists s1 s2, step s t = Some s1 /\ step s1 t = Some s2 /\
+    wire s2 = wire s /\ pending s2 = pending s /\ table s2 = table s /\
+    t_sid (tasks s2 t) = None /\ exists pre, t_res (tasks s2 t) = pre ++ [ResClosed].
+Proof.
+  intros C P. unfold pcof in P.
+  eexists. eexists. split; [unfold step; rewrite P; reflexivity|].
+  split; [unfold step; cbn; rewrite upd_same; cbn; rewrite C; reflexivity|].
+  cbn. rewrite !upd_same. cbn. repeat split; eexists; reflexivity.
 Qed.
